@@ -723,6 +723,11 @@ func (d *urlValuesDecoder) DecodeObject(param string, sm *openapi3.Serialization
 		}
 	}
 
+	if !found && len(schema.Value.Properties) == 0 && len(val) > 0 {
+		// no declared properties to look for (additionalProperties only): the members that were decoded are the value
+		found = true
+	}
+
 	return val, found, nil
 }
 
